@@ -2036,7 +2036,7 @@ def _s13_scan(fb):
     of the trip count and never touches the others.  Plain variables (locals recomputed per pass) are not elements and are skipped."""
     out, seen = [], set()
     for f in sorted(fb.funcs.values(), key=lambda g: (g.file, g.line, g.name)):
-        if not f.nodes or not f.file.startswith('/repo/src/soplex/'):
+        if not f.nodes or '/src/soplex/' not in f.file:
             continue
         for n in f.nodes:
             if n.k not in ('CompoundAssignOperator', 'CXXOperatorCallExpr') or n.o != '*=':
